@@ -2,6 +2,7 @@ package checks
 
 import (
 	"fmt"
+	"strings"
 	"time"
 
 	"verif/mc/engine"
@@ -43,6 +44,13 @@ func init() {
 			return m
 		},
 		Enum: func(tier string, e *engine.Emitter) {
+			// a document diffed against itself: nothing is a difference, whatever the members' keys look like
+			same := NewTextSet(append(append(append([]V{}, KeyedLoose().Vals...), Keyed2Same().Vals...), thin(KeyedStr(), 150).Vals...))
+			for _, o := range []string{"none", "SET", "MULTISET", "SETKEYS:id", "SETKEYS:id,t", "SETKEYS:id+MERGE"} {
+				for _, t := range same.Texts {
+					e.Emit(engine.Case{Kind: "c07same:" + o, Leg: "identical/" + o, A: t, B: t})
+				}
+			}
 			// merge mode needs a null-free b (null means delete); a may hold nulls
 			withNulls := thin(noVoid(U(4)), 400)
 			pairs(e, "c07:MERGE", "a-with-nulls/MERGE", withNulls, nullFree(withNulls))
@@ -91,7 +99,24 @@ func seqEq(a, b []V, r ref.Reading) bool {
 	return true
 }
 
+func runC07Same(c *engine.Case) engine.Result {
+	o := impl.Options(optOf(c.Kind))
+	res := engine.Result{Traces: 1, Transitions: 1, Nontrivial: true, Bucket: "identical/" + o.Name}
+	p := impl.Guard(func() {
+		if d := impl.Read(c.A).Diff(impl.Read(c.B), o.Opts...); len(d) != 0 {
+			res.Violation = "a document diffed against itself yields hunks (equal sub-documents are mentioned) | diff:\n" + d.Render()
+		}
+	})
+	if p != "" {
+		res.Violation = p
+	}
+	return res
+}
+
 func runC07(c *engine.Case) engine.Result {
+	if strings.HasPrefix(c.Kind, "c07same:") {
+		return runC07Same(c)
+	}
 	o := impl.Options(optOf(c.Kind))
 	res := engine.Result{}
 	var fail, text string
